@@ -797,7 +797,7 @@ def desc_strategy(view):
     # inf only where the statement's "always strict JSON" bites; the other views say nothing about infinities
     # post-build deletions (stale suffixes such as GR:2, GR:3) only where the view does not rename curves: after
     # set_data_from_df() lasio re-assigns duplicate suffixes, so "the same curve names" is only meaningful without them
-    return LB.las_desc(inf=(view == "json"), p_text=4, p_empty=1, drops=(view in ("json", "csv")),
+    return LB.las_desc(inf=(view == "json"), p_text=4, p_empty=1, drops=(view in ("json", "csv", "df")),
                        extra_kinds=(("o", "i") if view == "json" else ()))
 
 
@@ -834,7 +834,15 @@ def excel_cases(draw):
 
 @st.composite
 def df_cases(draw):
-    return dict(view="df", src="gen", las=draw(desc_strategy("df")))
+    desc = draw(desc_strategy("df"))
+    rows = len(desc["curves"][0][5]) if desc.get("curves") else 0
+    if rows == 0:
+        # with no samples set_data() does not assign the frame's names at all and simply renumbers the duplicates: the
+        # stale suffixes a deletion leaves behind (GR:2, GR:3) are then not "restored" - the statement's round trip is
+        # judged on frames that carry data
+        for k in ("drop", "rename", "assign"):
+            desc.pop(k, None)
+    return dict(view="df", src="gen", las=desc)
 
 
 def spell(draw, fam):
